@@ -193,6 +193,7 @@ class Merger(object):
         self.channel_offsets = []
         channel_probes = []
         channel_maps_l = _load_multiple_files('channel_map.npy', self.subdirs)
+        self.channel_counts = [len(array) for array in channel_maps_l]
         # TODO if needed: channel_shanks.npy
         offset = 0
         for ind, array in enumerate(channel_maps_l):
@@ -256,9 +257,14 @@ class Merger(object):
 
         for fn in template_data:
             arrays = _load_multiple_files(fn, self.subdirs)
-            # For ind arrays, we need to take into account the channel offset.
-            for array, offset in zip(arrays, self.channel_offsets):
-                array += offset
+            # Channel indices are shifted by the number of channels of the previous probes,
+            # template indices by their number of templates.
+            if fn == 'pc_feature_ind.npy':
+                counts = self.channel_counts
+            else:
+                counts = [array.shape[0] for array in arrays]
+            offsets = np.cumsum([0] + list(counts[:-1]))
+            arrays = [array + offset for array, offset in zip(arrays, offsets)]
             concat = _concat(arrays, axis=0).astype(np.uint32)
             self._save(fn, concat)
 
